@@ -1,9 +1,395 @@
 import Driver.Util
-/-! Protocol handlers of the `rt.*` suites. -/
+import Std.Data.HashMap
+import StoneVerif.Model.Rt.Types
+import StoneVerif.Model.Rt.Tables
+import StoneVerif.Model.Rt.Validate
+import StoneVerif.Model.Rt.Encode
+import StoneVerif.Model.Rt.Decode
+import StoneVerif.Model.Rt.Ir
+/-! Protocol handlers of the `rt.*` suites (C04–C08, C10, C13). -/
 open Lean
 namespace Driver.Rt
+open StoneVerif.Rt
 
-def handle (op : String) (_j : Json) : Except String Json := do
-  throw s!"unknown op {op}"
+abbrev P := Except String
+
+def optOf {α} (f : Json → P α) (j : Json) : P (Option α) :=
+  match j with
+  | .null => pure none
+  | _ => do pure (some (← f j))
+
+def natOf (j : Json) : P Nat := j.getNat?
+def intOf' (j : Json) : P Int := j.getInt?
+def strOf (j : Json) : P String := j.getStr?
+def boolOf (j : Json) : P Bool := j.getBool?
+def arrOf (j : Json) : P (List Json) := do pure (← j.getArr?).toList
+
+def redactorOf (j : Json) : P Redactor := do
+  match ← arrOf j with
+  | [k, r] =>
+    let re ← optOf strOf r
+    match ← strOf k with
+    | "blot" => pure (.blot re)
+    | "hash" => pure (.hash re)
+    | s => throw s!"redactor kind {s}"
+  | _ => throw "redactor"
+
+partial def irTyOf (j : Json) : P IrTy := do
+  match ← arrOf j with
+  | [k] => match ← strOf k with
+    | "Boolean" => pure .bool
+    | "Bytes" => pure .bytes
+    | "Void" => pure .void
+    | s => throw s!"irty {s}"
+  | [k, a] => match ← strOf k with
+    | "Timestamp" => pure (.ts (← strOf a))
+    | "Nullable" => pure (.nullable (← irTyOf a))
+    | "Union" => pure (.union (← strOf a))
+    | s => throw s!"irty/2 {s}"
+  | [k, a, b] => match ← strOf k with
+    | "Map" => pure (.map (← irTyOf a) (← irTyOf b))
+    | "Struct" => pure (.struct (← strOf a) (← boolOf b))
+    | "Int32" | "UInt32" | "Int64" | "UInt64" => pure (.int (← strOf k) (← optOf intOf' a) (← optOf intOf' b))
+    | "Float32" | "Float64" => pure (.float (← strOf k) (← optOf natOf a) (← optOf natOf b))
+    | s => throw s!"irty/3 {s}"
+  | [k, a, b, c] => match ← strOf k with
+    | "String" => pure (.str (← optOf natOf a) (← optOf natOf b) (← optOf strOf c))
+    | "List" => pure (.list (← irTyOf a) (← optOf natOf b) (← optOf natOf c))
+    | "Alias" => pure (.alias (← strOf a) (← optOf redactorOf b) (← irTyOf c))
+    | s => throw s!"irty/4 {s}"
+  | _ => throw "irty arity"
+
+partial def pyValOf (j : Json) : P PyVal := do
+  match ← arrOf j with
+  | [k] => match ← strOf k with
+    | "n" => pure .none
+    | s => throw s!"pyval {s}"
+  | [k, a] => match ← strOf k with
+    | "b" => pure (.bool (← boolOf a))
+    | "i" => pure (.int (← intOf' a))
+    | "f" => pure (.flt (← natOf a))
+    | "s" => pure (.str (← strOf a))
+    | "y" => pure (.bytes (← strOf a))
+    | "l" => pure (.list (← (← arrOf a).mapM pyValOf))
+    | "u" => pure (.tuple (← (← arrOf a).mapM pyValOf))
+    | "d" => do
+      let kvs ← (← arrOf a).mapM fun p => do
+        match ← arrOf p with
+        | [x, y] => pure (← pyValOf x, ← pyValOf y)
+        | _ => throw "dict pair"
+      pure (.dict kvs)
+    | "o" => pure (.other (← strOf a))
+    | s => throw s!"pyval/2 {s}"
+  | [k, a, b] => match ← strOf k with
+    | "t" => pure (.ts (← natOf a) (← boolOf b))
+    | "S" => do
+      let slots ← (← arrOf b).mapM fun p => do
+        match ← arrOf p with
+        | [x, y] => pure (← strOf x, ← pyValOf y)
+        | _ => throw "slot pair"
+      pure (.struct (← strOf a) slots)
+    | s => throw s!"pyval/3 {s}"
+  | [k, a, b, c] => match ← strOf k with
+    | "U" => pure (.union (← strOf a) (← strOf b) (← pyValOf c))
+    | s => throw s!"pyval/4 {s}"
+  | _ => throw "pyval arity"
+
+partial def jsonOf (j : Json) : P JVal := do
+  match ← arrOf j with
+  | [k] => match ← strOf k with
+    | "n" => pure .null
+    | s => throw s!"json {s}"
+  | [k, a] => match ← strOf k with
+    | "b" => pure (.bool (← boolOf a))
+    | "i" => pure (.int (← intOf' a))
+    | "f" => pure (.flt (← natOf a))
+    | "s" => pure (.str (← strOf a))
+    | "a" => pure (.arr (← (← arrOf a).mapM jsonOf))
+    | "o" => do
+      let kvs ← (← arrOf a).mapM fun p => do
+        match ← arrOf p with
+        | [x, y] => pure (← strOf x, ← jsonOf y)
+        | _ => throw "obj pair"
+      pure (.obj kvs)
+    | s => throw s!"json/2 {s}"
+  | _ => throw "json arity"
+
+partial def pyValTo : PyVal → Json
+  | .none => Json.arr #["n"]
+  | .bool b => Json.arr #["b", b]
+  | .int n => Json.arr #["i", Json.num (JsonNumber.fromInt n)]
+  | .flt x => Json.arr #["f", Json.num (JsonNumber.fromNat x)]
+  | .str s => Json.arr #["s", s]
+  | .bytes h => Json.arr #["y", h]
+  | .ts id ok => Json.arr #["t", Json.num (JsonNumber.fromNat id), ok]
+  | .list xs => Json.arr #["l", Json.arr (xs.map pyValTo).toArray]
+  | .tuple xs => Json.arr #["u", Json.arr (xs.map pyValTo).toArray]
+  | .dict kvs => Json.arr #["d", Json.arr (kvs.map fun (k, v) => Json.arr #[pyValTo k, pyValTo v]).toArray]
+  | .struct c slots => Json.arr #["S", c, Json.arr (slots.map fun (k, v) => Json.arr #[Json.str k, pyValTo v]).toArray]
+  | .union c t v => Json.arr #["U", c, t, pyValTo v]
+  | .other n => Json.arr #["o", n]
+
+partial def jsonTo : JVal → Json
+  | .null => Json.arr #["n"]
+  | .bool b => Json.arr #["b", b]
+  | .int n => Json.arr #["i", Json.num (JsonNumber.fromInt n)]
+  | .flt x => Json.arr #["f", Json.num (JsonNumber.fromNat x)]
+  | .str s => Json.arr #["s", s]
+  | .arr xs => Json.arr #["a", Json.arr (xs.map jsonTo).toArray]
+  | .obj kvs => Json.arr #["o", Json.arr (kvs.map fun (k, v) => Json.arr #[Json.str k, jsonTo v]).toArray]
+
+def optTo {α} (f : α → Json) : Option α → Json
+  | some a => f a
+  | none => Json.null
+
+def redactorTo : Redactor → Json
+  | .blot r => Json.arr #["blot", optTo Json.str r]
+  | .hash r => Json.arr #["hash", optTo Json.str r]
+
+def flagsTo (fl : Flags) : Json :=
+  Json.mkObj [("n", fl.nullable), ("ro", optTo redactorTo fl.redactOuter), ("ri", optTo redactorTo fl.redactInner)]
+
+def natTo (n : Nat) : Json := Json.num (JsonNumber.fromNat n)
+def intTo (n : Int) : Json := Json.num (JsonNumber.fromInt n)
+
+partial def ptyTo : PTy → Json
+  | .bool fl => Json.mkObj [("k", "Boolean"), ("fl", flagsTo fl)]
+  | .int fl c lo hi => Json.mkObj [("k", c), ("fl", flagsTo fl), ("lo", intTo lo), ("hi", intTo hi)]
+  | .float fl c lo hi => Json.mkObj [("k", c), ("fl", flagsTo fl), ("lo", optTo natTo lo), ("hi", optTo natTo hi)]
+  | .str fl a b p => Json.mkObj [("k", "String"), ("fl", flagsTo fl), ("min", optTo natTo a), ("max", optTo natTo b), ("pat", optTo Json.str p)]
+  | .bytes fl => Json.mkObj [("k", "Bytes"), ("fl", flagsTo fl)]
+  | .ts fl f => Json.mkObj [("k", "Timestamp"), ("fl", flagsTo fl), ("fmt", f)]
+  | .void fl => Json.mkObj [("k", "Void"), ("fl", flagsTo fl)]
+  | .list fl i a b => Json.mkObj [("k", "List"), ("fl", flagsTo fl), ("item", ptyTo i), ("min", optTo natTo a), ("max", optTo natTo b)]
+  | .map fl k v => Json.mkObj [("k", "Map"), ("fl", flagsTo fl), ("key", ptyTo k), ("val", ptyTo v)]
+  | .struct fl c => Json.mkObj [("k", "Struct"), ("fl", flagsTo fl), ("cls", c)]
+  | .tree fl c => Json.mkObj [("k", "StructTree"), ("fl", flagsTo fl), ("cls", c)]
+  | .union fl c => Json.mkObj [("k", "Union"), ("fl", flagsTo fl), ("cls", c)]
+
+def tyOf (j : Json) : P PTy := do
+  match validatorOf (← irTyOf j) with
+  | some t => pure t
+  | none => throw "validatorOf: constructor would raise"
+
+def fieldOf (j : Json) : P FieldDef := do
+  let ir ← irTyOf (← jobj j "ty")
+  let red ← optOf redactorOf ((jopt j "red").getD .null)
+  let t ← match validatorOf ir with
+    | some t => pure (setRedact red t)
+    | none => throw "validatorOf(field)"
+  let inner := match ir with
+    | .nullable _ => true
+    | _ => false
+  pure { name := ← jstr j "name", ty := t, attrNullable := inner, attrUserDefined := ir.isUserDefinedLit,
+         dflt := ← optOf pyValOf ((jopt j "dflt").getD .null), omitted := ← optOf strOf ((jopt j "om").getD .null) }
+
+def tagOf (j : Json) : P TagDef := do
+  let ir ← irTyOf (← jobj j "ty")
+  let red ← optOf redactorOf ((jopt j "red").getD .null)
+  let t ← match validatorOf ir with
+    | some t => pure (setRedact red t)
+    | none => throw "validatorOf(tag)"
+  pure { name := ← jstr j "name", ty := t, omitted := ← optOf strOf ((jopt j "om").getD .null) }
+
+def envOf (j : Json) : P Env := do
+  let structs ← (← jarr j "structs").toList.mapM fun s => do
+    let levels ← (← jarr s "levels").toList.mapM fun l => do
+      pure ({ cls := ← jstr l "cls", fields := ← (← jarr l "fields").toList.mapM fieldOf } : Level)
+    let subtypes ← match jopt s "subtypes" with
+      | none => pure none
+      | some st => do
+        let xs ← (← arrOf st).mapM fun e => do
+          match ← arrOf e with
+          | [tags, c, tr] => pure ((← (← arrOf tags).mapM strOf), ← strOf c, ← boolOf tr)
+          | _ => throw "subtype entry"
+        pure (some xs)
+    pure ({ cls := ← jstr s "cls", levels, subtypes, catchAll := ← jbool s "catchAll" } : StructDef)
+  let unions ← (← jarr j "unions").toList.mapM fun u => do
+    let levels ← (← jarr u "levels").toList.mapM fun l => do
+      pure ({ cls := ← jstr l "cls", tags := ← (← jarr l "tags").toList.mapM tagOf } : ULevel)
+    pure ({ cls := ← jstr u "cls", levels, catchAll := ← optOf strOf ((jopt u "catchAll").getD .null) } : UnionDef)
+  pure { structs, unions }
+
+/-! ### external-call tables -/
+
+structure ExtTables where
+  fltOfInt : Std.HashMap Int (Option Nat) := {}
+  pat : Std.HashMap (String × String) Bool := {}
+  b64enc : Std.HashMap String String := {}
+  b64dec : Std.HashMap String (Option (Option String)) := {}
+  strftime : Std.HashMap (String × Nat) String := {}
+  strptime : Std.HashMap (String × String) (Option Nat) := {}
+  md5 : Std.HashMap String String := {}
+  re : Std.HashMap (String × String) (Option (List String)) := {}
+  strOfFlt : Std.HashMap Nat String := {}
+
+def extTablesOf (j : Json) : P ExtTables := do
+  let rows (k : String) : P (List (List Json)) := do
+    match jopt j k with
+    | none => pure []
+    | some a => (← arrOf a).mapM arrOf
+  let mut t : ExtTables := {}
+  for r in ← rows "fltOfInt" do
+    match r with
+    | [a, b] => t := { t with fltOfInt := t.fltOfInt.insert (← intOf' a) (← optOf natOf b) }
+    | _ => throw "fltOfInt row"
+  for r in ← rows "pat" do
+    match r with
+    | [a, b, c] => t := { t with pat := t.pat.insert (← strOf a, ← strOf b) (← boolOf c) }
+    | _ => throw "pat row"
+  for r in ← rows "b64enc" do
+    match r with
+    | [a, b] => t := { t with b64enc := t.b64enc.insert (← strOf a) (← strOf b) }
+    | _ => throw "b64enc row"
+  for r in ← rows "b64dec" do
+    match r with
+    | [a, b] =>
+      -- value: hex string | "!binascii" | "!value"
+      let v ← strOf b
+      let e : Option (Option String) := if v == "!value" then none else if v == "!binascii" then some none else some (some v)
+      t := { t with b64dec := t.b64dec.insert (← strOf a) e }
+    | _ => throw "b64dec row"
+  for r in ← rows "strftime" do
+    match r with
+    | [a, b, c] => t := { t with strftime := t.strftime.insert (← strOf a, ← natOf b) (← strOf c) }
+    | _ => throw "strftime row"
+  for r in ← rows "strptime" do
+    match r with
+    | [a, b, c] => t := { t with strptime := t.strptime.insert (← strOf a, ← strOf b) (← optOf natOf c) }
+    | _ => throw "strptime row"
+  for r in ← rows "md5" do
+    match r with
+    | [a, b] => t := { t with md5 := t.md5.insert (← strOf a) (← strOf b) }
+    | _ => throw "md5 row"
+  for r in ← rows "re" do
+    match r with
+    | [a, b, c] =>
+      let g ← optOf (fun x => do (← arrOf x).mapM strOf) c
+      t := { t with re := t.re.insert (← strOf a, ← strOf b) g }
+    | _ => throw "re row"
+  for r in ← rows "strOfFlt" do
+    match r with
+    | [a, b] => t := { t with strOfFlt := t.strOfFlt.insert (← natOf a) (← strOf b) }
+    | _ => throw "strOfFlt row"
+  pure t
+
+def fOf (b : Nat) : Float := Float.ofBits b.toUInt64
+
+/-- `alt` selects which of two different answers a table miss gets (see `Ext`). -/
+def mkExt (t : ExtTables) (alt : Bool) : Ext where
+  fltLt a b := fOf a < fOf b
+  fltIsNan a := (fOf a).isNaN
+  fltIsInf a := (fOf a).isInf
+  fltOfInt n := match t.fltOfInt[n]? with
+    | some r => r
+    | none => if alt then none else some 0
+  patMatch p s := (t.pat[(p, s)]?).getD alt
+  b64enc h := (t.b64enc[h]?).getD (if alt then "!MISS1" else "!MISS0")
+  b64dec s := (t.b64dec[s]?).getD (if alt then none else some none)
+  strftime f id := (t.strftime[(f, id)]?).getD (if alt then "!MISS1" else "!MISS0")
+  strptime f s := (t.strptime[(f, s)]?).getD (if alt then none else some 999999999)
+  md5 s := (t.md5[s]?).getD (if alt then "!MISS1" else "!MISS0")
+  reSearch r s := (t.re[(r, s)]?).getD (if alt then none else some ["!MISS"])
+  strOfInt n := toString n
+  strOfFlt b := (t.strOfFlt[b]?).getD (if alt then "!MISS1" else "!MISS0")
+
+structure State where
+  env : Env := { structs := [], unions := [] }
+  ext : ExtTables := {}
+
+def resTo {α} (f : α → Json) : R α → Json
+  | .ok a => Json.mkObj [("ok", f a)]
+  | .error (.verr h) => Json.mkObj [("verr", h)]
+  | .error (.crash e) => Json.mkObj [("crash", e)]
+
+/-- evaluate under both miss policies; a difference means an external-call table was incomplete -/
+def both (st : State) (f : Ext → Json) : Json :=
+  let a := f (mkExt st.ext false)
+  let b := f (mkExt st.ext true)
+  if a.compress == b.compress then a else Json.mkObj [("protocol_error", "ext-miss"), ("a", a), ("b", b)]
+
+def permsOf (j : Json) : P (List String) :=
+  match jopt j "perms" with
+  | some a => do (← arrOf a).mapM strOf
+  | none => pure []
+
+def handle (st : State) (op : String) (j : Json) : Except String (State × Json) := do
+  match op with
+  | "rt.ctx" =>
+    let env ← match jopt j "env" with
+      | some e => envOf e
+      | none => pure st.env
+    let ext ← match jopt j "ext" with
+      | some e => extTablesOf e
+      | none => pure st.ext
+    pure ({ env, ext }, Json.mkObj [("ok", true), ("structs", natTo env.structs.length), ("unions", natTo env.unions.length)])
+  | "rt.vdump" =>
+    let t ← tyOf (← jobj j "ty")
+    pure (st, Json.mkObj [("ok", ptyTo t)])
+  | "rt.fields" =>
+    -- the model's class tables for a struct: code-following and specification-level
+    let cls ← jstr j "cls"
+    let perms ← permsOf j
+    match st.env.struct? cls with
+    | none => throw s!"no struct {cls}"
+    | some s =>
+      let names (fs : List FieldDef) : Json := Json.arr (fs.map fun f => Json.str f.name).toArray
+      pure (st, Json.mkObj [("code", names (s.fieldsFor perms)), ("spec", names (s.fieldsSpec perms))])
+  | "rt.tags" =>
+    let cls ← jstr j "cls"
+    let perms ← permsOf j
+    match st.env.union? cls with
+    | none => throw s!"no union {cls}"
+    | some u =>
+      let all := u.levels.flatMap (·.tags)
+      let code := all.filter fun t => u.isTagPresent t.name perms
+      let names (fs : List TagDef) : Json := Json.arr (fs.map fun f => Json.str f.name).toArray
+      pure (st, Json.mkObj [("code", names code), ("spec", names (u.tagsSpec perms)),
+        ("ctor", names (all.filter fun t => (u.ctorValidator t.name).isSome))])
+  | "rt.val" =>
+    let t ← tyOf (← jobj j "ty")
+    let v ← pyValOf (← jobj j "v")
+    pure (st, both st fun E => resTo pyValTo (validate E st.env t v))
+  | "rt.set" =>
+    let o ← pyValOf (← jobj j "obj")
+    let v ← pyValOf (← jobj j "v")
+    let name ← jstr j "field"
+    pure (st, both st fun E => resTo pyValTo (do
+      let o' ← setField E st.env o name v
+      let back ← getField st.env o' name
+      pure (.tuple [o', back])))
+  | "rt.get" =>
+    let o ← pyValOf (← jobj j "obj")
+    let name ← jstr j "field"
+    pure (st, resTo pyValTo (getField st.env o name))
+  | "rt.mkstruct" =>
+    let cls ← jstr j "cls"
+    let args ← (← jarr j "args").toList.mapM fun p => do
+      match ← arrOf p with
+      | [x, y] => pure (← strOf x, ← pyValOf y)
+      | _ => throw "arg pair"
+    pure (st, both st fun E => resTo pyValTo (mkStruct E st.env cls args))
+  | "rt.mkunion" =>
+    let cls ← jstr j "cls"
+    let tag ← jstr j "tag"
+    let v ← pyValOf (← jobj j "v")
+    pure (st, both st fun E => resTo pyValTo (mkUnion E st.env cls tag v))
+  | "rt.eq" =>
+    let a ← pyValOf (← jobj j "a")
+    let b ← pyValOf (← jobj j "b")
+    pure (st, both st fun E => Json.mkObj [("ok", pyEq E st.env a b)])
+  | "rt.enc" =>
+    let t ← tyOf (← jobj j "ty")
+    let v ← pyValOf (← jobj j "v")
+    let perms ← permsOf j
+    let redact := (jbool j "redact").toOption.getD false
+    pure (st, both st fun E => resTo jsonTo (jsonCompatObjEncode E st.env perms redact t v))
+  | "rt.dec" =>
+    let t ← tyOf (← jobj j "ty")
+    let d ← jsonOf (← jobj j "doc")
+    let perms ← permsOf j
+    let strict := (jbool j "strict").toOption.getD true
+    pure (st, both st fun E => resTo pyValTo (jsonCompatObjDecode E st.env perms strict t d))
+  | _ => throw s!"unknown op {op}"
 
 end Driver.Rt
